@@ -91,7 +91,7 @@ def run_case(case):
             with taps:
                 if use_default:
                     try:
-                        b.df.write(path, input_chunk_size=ics)
+                        b.df.write(path, input_chunk_size=ics, **{k: v for k, v in window.items() if v is not None})
                         wout = ('ok',)
                     except Exception as e:   # noqa
                         wout = ('exc', type(e).__name__, str(e)[:200])
